@@ -133,6 +133,29 @@ theorem rootMsg_eq (filename decl : Str) (imports elems : List Node) :
 
 /-! ## The theorem -/
 
+/-- the file level: `package`, imports, then elements that append to `elements` -/
+theorem print_parse_of (filename path decl : Str) (imports : List J5V.Compile.Import)
+    (elems : List J5V.Compile.Elem) (hdecl : isDotted decl = true) (himports : ∀ i ∈ imports, importOk i = true)
+    (hel : AppendsAll j5Env rootScope [] 3 (elems.map elemBcl) (elems.map (elemMsg j5Env))) :
+    walkSchema j5Env (toBcl (.j5s path imports elems decl)) (stub j5Env filename) =
+      .ok (toMsg filename (.j5s path imports elems decl)) := by
+  have himp : AppendsAll j5Env rootScope [] 2 (imports.map importBcl) (imports.map (importMsg j5Env)) :=
+    appendsAll_map _ _ _ (fun i hi => import_appends (himports i hi))
+  have hrun : Exact (doBody j5Env rootScope (toBcl (.j5s path imports elems decl))) []
+      (stub j5Env filename) () (toMsg filename (.j5s path imports elems decl)) := by
+    rw [stub_eq]
+    simp only [toBcl, toMsg, toMsgEnv]
+    rw [rootMsg_eq]
+    refine doBody_cons (package_exact hdecl _ _ _ _ _ _ _) ?_
+    refine doBody_append (appends_fold himp [] _ _ rfl rfl) ?_
+    refine (appends_fold hel [] _ _ rfl rfl).conv ?_
+    rw [List.nil_append, List.nil_append]
+    rfl
+  unfold walkSchema
+  rw [newRootSchemaWalker_j5]
+  dsimp only
+  rw [hrun.run_root]
+
 /-- **print/parse, first slice**: for a file of `package`, imports and top-level objects with scalar
 fields, the walk of the printed tree over the file stub returns exactly the message the file denotes -/
 theorem C07W_print_parse_slice1 (filename : Str) (ast : J5V.Compile.SrcFile) (h : supported1 ast = true) :
@@ -142,27 +165,11 @@ theorem C07W_print_parse_slice1 (filename : Str) (ast : J5V.Compile.SrcFile) (h 
   | j5s path imports elems decl =>
     simp only [supported1, Bool.and_eq_true, List.all_eq_true] at h
     obtain ⟨⟨hdecl, himports⟩, helems⟩ := h
-    have himp : AppendsAll j5Env rootScope [] 2 (imports.map importBcl) (imports.map (importMsg j5Env)) :=
-      appendsAll_map _ _ _ (fun i hi => import_appends (himports i hi))
-    have hel : AppendsAll j5Env rootScope [] 3 (elems.map elemBcl) (elems.map (elemMsg j5Env)) := by
-      refine appendsAll_map _ _ _ (fun e he => ?_)
-      have hok := helems e he
-      cases e with
-      | object o => exact object_appends hok
-      | _ => cases hok
-    have hrun : Exact (doBody j5Env rootScope (toBcl (.j5s path imports elems decl))) []
-        (stub j5Env filename) () (toMsg filename (.j5s path imports elems decl)) := by
-      rw [stub_eq]
-      simp only [toBcl, toMsg, toMsgEnv]
-      rw [rootMsg_eq]
-      refine doBody_cons (package_exact hdecl _ _ _ _ _ _ _) ?_
-      refine doBody_append (appends_fold himp [] _ _ rfl rfl) ?_
-      refine (appends_fold hel [] _ _ rfl rfl).conv ?_
-      rw [List.nil_append, List.nil_append]
-      rfl
-    unfold walkSchema
-    rw [newRootSchemaWalker_j5]
-    dsimp only
-    rw [hrun.run_root]
+    refine print_parse_of filename path decl imports elems hdecl himports ?_
+    refine appendsAll_map _ _ _ (fun e he => ?_)
+    have hok := helems e he
+    cases e with
+    | object o => exact object_appends hok
+    | _ => cases hok
 
 end J5V.Walker
